@@ -93,7 +93,7 @@ fn book_gen(m: &HashMap<String, String>) {
         } else {
             rng.gen_range(1..20)
         };
-        let vols = if unusual {
+        let vols = if unusual || (profile == "py" && rng.gen::<f64>() < 0.3) {
             vec![0, 0, 1, 2, 3, 5]
         } else if wide {
             vec![1, 3, 1 << 16, (1 << 22) + 1, 1 << 23]
@@ -307,7 +307,9 @@ fn env_gen(m: &HashMap<String, String>) {
             seed: env_seed, t0, ticks: tks.clone(), step, trading, levels: l };
         let np = if rng.gen::<f64>() < 0.3 { 6 } else { 3 };
         let base = rng.gen_range(1..20);
-        let vols = if profile == "unusual" { vec![0, 0, 1, 2, 3, 5] } else if rng.gen::<f64>() < 0.5 { vec![1, 2, 3] } else { vec![1, 2, 5, 10] };
+        let vols = if profile == "unusual" { vec![0, 0, 1, 2, 3, 5] }
+                   else if (profile == "py" || profile == "npy") && rng.gen::<f64>() < 0.3 { vec![0, 0, 1, 2, 5] }
+                   else if rng.gen::<f64>() < 0.5 { vec![1, 2, 3] } else { vec![1, 2, 5, 10] };
         let mut g = EGen { rng, profile: profile.clone(), ticks: tks, base, n_prices: np, vols, step, trading };
         with_env_levels!(l, run_env_hist, &h, Some(&mut g), &[], rounds, &mut w);
     }
